@@ -1381,9 +1381,69 @@ def np_errstate(ctx, **k):
     return None
 
 
+class FInfo:
+    """np.finfo(float dtype): only .eps is modelled (2^-52 for float64; A2: other float widths read alike)."""
+
+
 @lib('numpy.finfo')
 def np_finfo(ctx, dt):
-    raise Unsupported('finfo')
+    name = dt.name if isinstance(dt, A.DType) else A.dtype_from(ctx, dt)
+    if name not in ('float', 'complex'):
+        raise Raised('ValueError', 'data type %s not inexact' % name)
+    return FInfo()
+
+
+@lib('attr:FInfo.eps')
+def _finfo_eps(ctx, f):
+    return Fraction(1, 2 ** 52)
+
+
+class DTypeKind:
+    def __init__(self, kinds):
+        self.kinds = kinds
+
+
+LIB['numpy.inexact'] = DTypeKind(('float', 'complex'))
+LIB['numpy.floating'] = DTypeKind(('float',))
+LIB['numpy.complexfloating'] = DTypeKind(('complex',))
+LIB['numpy.integer'] = DTypeKind(('int',))
+LIB['numpy.number'] = DTypeKind(('int', 'float', 'complex'))
+
+
+@lib('numpy.issubdtype')
+def np_issubdtype(ctx, dt, kind):
+    name = dt.name if isinstance(dt, A.DType) else A.dtype_from(ctx, dt)
+    if not isinstance(kind, DTypeKind):
+        raise Unsupported('issubdtype against a concrete dtype')
+    return name in kind.kinds
+
+
+MAPCOORD = z3.Function('map_coordinates', z3.IntSort(), z3.RealSort(), z3.RealSort(), z3.RealSort())
+
+
+@lib('scipy.ndimage.map_coordinates', 'abstract')
+def sp_map_coordinates(ctx, inp, coordinates, output=None, order=3, mode='constant', cval=0.0, prefilter=True):
+    """Abstract spline interpolation of a 2-D array: out[idx] = I_k(row coordinate, column coordinate), one
+    uninterpreted function I_k per call (so it is a function of the position only), which reproduces the input
+    at integer positions inside the array (interpolating spline at its knots; scipy's documented behaviour for
+    the modes used here).  The call is recorded as a ghost."""
+    inp = arr(ctx, inp)
+    cs = items_of(ctx, coordinates)
+    if inp.ndim != 2 or len(cs) != 2 or output is not None:
+        raise Unsupported('map_coordinates form')
+    yy, xx = arr(ctx, cs[0]).snapshot(), arr(ctx, cs[1]).snapshot()
+    calls = ctx.__dict__.setdefault('ghost_map_coordinates', [])
+    ident = ctx.fresh_int('mapcoord_call')
+    snap = inp.snapshot()
+    n, m = inp.shape
+    i, j = z3.Int(ctx._name('mci')), z3.Int(ctx._name('mcj'))
+    ctx.assume(z3.ForAll([i, j], z3.Implies(z3.And(i >= 0, i < S.z(n), j >= 0, j < S.z(m)),
+                                            MAPCOORD(ident, z3.ToReal(i), z3.ToReal(j)) == S.zreal(S.cx(snap.at((i, j))).re if inp.dtype == 'complex' else snap.at((i, j))))),
+               'lib[abstract]:map_coordinates reproduces the input at integer positions', axiom=True)
+    out = Arr.from_fn(yy.shape, 'float', lambda idx: MAPCOORD(ident, S.zreal(yy.at(idx)), S.zreal(xx.at(idx))))
+    calls.append({'input': snap, 'yy': yy, 'xx': xx, 'order': order, 'mode': mode, 'ident': ident, 'output': out.snapshot()})
+    return out
+alias('scipy.ndimage.interpolation.map_coordinates', 'scipy.ndimage.map_coordinates')
 
 
 def install(world):
